@@ -59,7 +59,7 @@ def perConstraint (range : Option Range) : PerC :=
       let r : Int := if range.empty then 0 else 1 + u - l
       ⟨.constrained, range.ext, rangeBits r, effBits r u, l, u⟩
     | .val l, _ => ⟨.semi, range.ext, -1, -1, l, 0⟩
-    | _, _ => .unconstrained
+    | _, _ => ⟨.unconstrained, range.ext, -1, -1, 0, 0⟩
 
 /-- `asn_oer_constraint_number_t` -/
 structure OerN where
@@ -80,8 +80,9 @@ def oerValue (range : Option Range) : OerN :=
         let w : Nat :=
           if ub ≤ 255 then 1
           else if ub ≤ 65535 then 2
-          else if ub % 18446744073709551616 ≤ 4294967295 then 4      -- (unsigned long long)ub
-          else 8                                                     -- (unsigned long long)ub <= ULLONG_MAX
+          else if ub ≤ 4294967295 then 4
+          else if ub ≤ 18446744073709551615 then 8      -- ub == (asn1c_integer_t)(unsigned long long)ub
+          else 0
         ⟨w, 1⟩
       else
         let w : Nat :=
@@ -117,11 +118,11 @@ def resRange : Res → Option Range
 
 /-- `emit_member_PER_constraints` + `emit_member_OER_constraints` for a type that is neither
     ENUMERATED/CHOICE nor a known-multiplier string: four calls of the range function
-    (`asn1constraint_compute_PER_range` passes no strictness flag, `…_OER_range` passes
-    CPR_strict_OER_visibility); a NULL range gives the "no constraint" initialiser. -/
+    (`asn1constraint_compute_PER_range` is called with CPR_PER_root_only and adds no strictness flag,
+    `…_OER_range` adds CPR_strict_OER_visibility); a NULL range gives the "no constraint" initialiser. -/
 def emitTables (valueCompat sizeCompat nkm : Bool) (ct : Option CT) : Tables :=
-  { perValue := perConstraint (resRange (computeTop { req := .value, compat := valueCompat, nkm } ct))
-    perSize := perConstraint (resRange (computeTop { req := .size, compat := sizeCompat, nkm } ct))
+  { perValue := perConstraint (resRange (computeTop { req := .value, compat := valueCompat, nkm, rootOnly := true } ct))
+    perSize := perConstraint (resRange (computeTop { req := .size, compat := sizeCompat, nkm, rootOnly := true } ct))
     oerValue := oerValue (resRange (computeTop { req := .value, compat := valueCompat, nkm, strictOER := true } ct))
     oerSize := oerSize (resRange (computeTop { req := .size, compat := sizeCompat, nkm, strictOER := true } ct)) }
 
